@@ -270,6 +270,18 @@ func init() {
 		mt, id := env.x.shardedMap(env.st, Value{LV: v.LV}, v.GT)
 		return SVal{T: id, GT: mt}
 	}
+	// azcosmos.PatchOperations: Append* record one operation each (observed through contract monitors); the list itself
+	// is the SDK's
+	rulePrefixes["azcosmos.(*PatchOperations).Append"] = func(x *Exec, fr *Frame, st *State, ins ssa.Instruction, sig *types.Signature, args []Value) Value {
+		x.assumed["library: azcosmos.PatchOperations.Append* add one patch operation (path, value) to the request; the operations are observed through contract monitors, the list is the SDK's"] = true
+		return Value{}
+	}
+	// azcore runtime.Pager[T] (query results of the Cosmos DB client): More and NextPage are the service's; they return
+	// unconstrained values and write nothing visible to /repo
+	rulePrefixes["runtime.(*Pager["] = func(x *Exec, fr *Frame, st *State, ins ssa.Instruction, sig *types.Signature, args []Value) Value {
+		x.assumed["library: azcore runtime.Pager (Cosmos DB query results): More/NextPage return unconstrained values (which documents a query returns, and in which order, is the service's) and write no memory of /repo"] = true
+		return x.resultValue(st, "pager", sig.Results())
+	}
 	// sync.Mutex: critical sections are not modelled (no interleavings); Lock/Unlock are no-ops
 	for _, k := range []string{"sync.(*Mutex).Lock", "sync.(*Mutex).Unlock", "sync.(*RWMutex).Lock", "sync.(*RWMutex).Unlock", "sync.(*RWMutex).RLock", "sync.(*RWMutex).RUnlock"} {
 		rules[k] = func(x *Exec, fr *Frame, st *State, ins ssa.Instruction, sig *types.Signature, args []Value) Value {
@@ -301,6 +313,49 @@ func init() {
 	// bytesval(b): the contents of a []byte as a value
 	specBuiltins["bytesval"] = func(env *SpecEnv, e *Expr) SVal {
 		return SVal{T: env.x.bytesVal(env.st, env.eval(e.Args[0]).T)}
+	}
+	// jsonfield(b, T, f): field f of the document with bytes value b decoded as struct type T (scalar, string, time, id
+	// fields: the value; []byte fields: the bytes value); jsonfieldlen(b, T, f) / jsonfieldat(b, T, f, i): a list field
+	jsonFieldArgs := func(env *SpecEnv, e *Expr) (*Term, types.Type, *types.Var) {
+		data := env.eval(e.Args[0]).T
+		t := env.goType(e.Args[1])
+		su, ok := t.Underlying().(*types.Struct)
+		if !ok {
+			env.errf(e, "jsonfield: %s is not a struct type", t)
+		}
+		if e.Args[2].Kind != "id" {
+			env.errf(e, "jsonfield: third argument must be a field name")
+		}
+		for i := 0; i < su.NumFields(); i++ {
+			if su.Field(i).Name() == e.Args[2].Name {
+				return data, t, su.Field(i)
+			}
+		}
+		env.errf(e, "jsonfield: %s has no field %s", t, e.Args[2].Name)
+		return nil, nil, nil
+	}
+	specBuiltins["jsonfield"] = func(env *SpecEnv, e *Expr) SVal {
+		data, t, f := jsonFieldArgs(env, e)
+		if sl, ok := f.Type().Underlying().(*types.Slice); ok {
+			if b, isB := sl.Elem().Underlying().(*types.Basic); isB && b.Kind() == types.Uint8 {
+				return SVal{T: jsonFieldTerm(sortBytes, data, typeKeyName(t), f.Name())}
+			}
+			env.errf(e, "jsonfield: %s is a list, use jsonfieldlen / jsonfieldat", f.Name())
+		}
+		return SVal{T: jsonFieldTerm(sortOf(f.Type()), data, typeKeyName(t), f.Name()), GT: f.Type()}
+	}
+	specBuiltins["jsonfieldlen"] = func(env *SpecEnv, e *Expr) SVal {
+		data, t, f := jsonFieldArgs(env, e)
+		return SVal{T: UF("jsonfieldlen_"+typeKeyName(t)+"_"+f.Name(), "Int", data)}
+	}
+	specBuiltins["jsonfieldat"] = func(env *SpecEnv, e *Expr) SVal {
+		data, t, f := jsonFieldArgs(env, e)
+		sl, ok := f.Type().Underlying().(*types.Slice)
+		if !ok {
+			env.errf(e, "jsonfieldat: %s is not a list", f.Name())
+		}
+		es := sortOf(sl.Elem())
+		return SVal{T: UF("jsonfieldat_"+typeKeyName(t)+"_"+f.Name()+"_"+sortSuffix(es), es, data, env.eval(e.Args[3]).T), GT: sl.Elem()}
 	}
 	// jsonlen(b) / jsonat(b, i): length and i-th element of the list of strings encoded in the bytes value b
 	specBuiltins["jsonlen"] = func(env *SpecEnv, e *Expr) SVal {
